@@ -187,3 +187,75 @@ Proof.
       rewrite raised_app, Er in Hr.
       rewrite emitted_app, H1, (IH _ _ _ Hc1 Hk1 E2 Hr). reflexivity.
 Qed.
+
+(* ---------- the QuadStream / DatasetsFrameFlow analogue ---------- *)
+Lemma stream_quad_class terms s s' r : stream_quad terms s = (s', r) -> st_class s' = st_class s.
+Proof.
+  unfold stream_quad. destruct (st_failed s); [intros H; inversion H; reflexivity|].
+  destruct (encode_quad _ _ _) as [[[t' rp'] rows]|e]; [|intros H; inversion H; reflexivity].
+  destruct (frame_from_bounds _) as [fl fr]. intros H; inversion H; reflexivity.
+Qed.
+
+Lemma quads_stream_frames_class d s s' evs : quads_stream_frames d s = (s', evs) -> st_class s' = st_class s.
+Proof.
+  unfold quads_stream_frames.
+  destruct (ns_phase true d (enroll s)) as [s1 [u|e]] eqn:En.
+  - destruct (feed stream_quad (d_stmts d) s1) as [[s2 evs2] ok] eqn:E.
+    pose proof (feed_class _ _ _ _ _ _ stream_quad_class E) as C2.
+    pose proof (ns_phase_class _ _ _ _ _ En) as C1. rewrite enroll_class in C1.
+    destruct ok.
+    + destruct (finish false s2) as [s3 fin] eqn:F. intros H; inversion H; subst.
+      rewrite (finish_class _ _ _ _ F). congruence.
+    + intros H; inversion H; subst. congruence.
+  - intros H; inversion H; subst. rewrite (ns_phase_class _ _ _ _ _ En). apply enroll_class.
+Qed.
+
+Theorem grouped_quads_one_frame (d : sdata) (s s' : stream) (evs : list tev) :
+  fl_kind (st_flow s) = FDatasets ->
+  quads_stream_frames d s = (s', evs) -> raised evs = None ->
+  emitted evs = one_frame (emitted_rows evs) /\ fl_rows (st_flow s') = [] /\ fl_kind (st_flow s') = FDatasets.
+Proof.
+  intros Hk Hrun Hraise. pose proof (quads_stream_frames_flushes _ _ _ _ Hrun Hraise) as Hflush.
+  unfold quads_stream_frames in Hrun.
+  destruct (ns_phase true d (enroll s)) as [s1 [u|e]] eqn:En; [|inversion Hrun; subst; cbn in Hraise; discriminate].
+  assert (Hk1 : fl_kind (st_flow s1) = FDatasets) by (rewrite (ns_phase_kind _ _ _ _ _ En), enroll_kind; exact Hk).
+  destruct (feed stream_quad (d_stmts d) s1) as [[s2 evs2] ok] eqn:E. destruct ok.
+  - destruct (finish false s2) as [s3 fin] eqn:F. inversion Hrun; subst s' evs; clear Hrun.
+    assert (Hu1 : unbounded s1) by (unfold unbounded; now rewrite Hk1).
+    destruct (feed_unbounded stream_quad _ _ _ _ (fun t x x' fr Hu Hs => let '(conj a (conj b _)) := stream_quad_unbounded t x x' fr Hu Hs in conj a b) Hu1 E) as [He Hk2].
+    rewrite Hk1 in Hk2. pose proof (finish_datasets _ _ _ Hk2 F) as Hf.
+    rewrite emitted_app, He, Hf. cbn [app].
+    assert (Hrows : emitted_rows (evs2 ++ fin) = fl_rows (st_flow s2)).
+    { rewrite emitted_rows_app. rewrite (emitted_rows_is_concat evs2), He. cbn.
+      pose proof (finish_conserves _ _ _ _ F) as Hc. rewrite Hflush, app_nil_r in Hc. exact Hc. }
+    rewrite Hrows. split; [reflexivity|]. split; [exact Hflush|].
+    unfold finish in F. unfold frame_from_dataset in F. rewrite Hk2 in F.
+    pose proof (to_stream_frame_kind (st_flow s2)) as [K1 _]. destruct (to_stream_frame (st_flow s2)) as [fl1 fr1].
+    pose proof (to_stream_frame_kind fl1) as [K2 _]. destruct (to_stream_frame fl1) as [fl2 fr2].
+    inversion F; subst. cbn in *. congruence.
+  - inversion Hrun; subst. exfalso. eapply feed_not_ok_raises; eauto.
+Qed.
+
+Fixpoint per_sink_rows_q (sinks : list sdata) (s : stream) : list (list row) :=
+  match sinks with
+  | [] => []
+  | d :: rest => let '(s', evs) := quads_stream_frames d s in emitted_rows evs :: per_sink_rows_q rest s'
+  end.
+
+Theorem grouped_write_one_frame_per_sink_quads (sinks : list sdata) : forall (s s' : stream) (evs : list tev),
+  st_class s = QuadStream -> fl_kind (st_flow s) = FDatasets ->
+  grouped_frames sinks s = (s', evs) -> raised evs = None ->
+  emitted evs = flat_map one_frame (per_sink_rows_q sinks s).
+Proof.
+  induction sinks as [|d rest IH]; intros s s' evs Hc Hk; cbn [grouped_frames per_sink_rows_q flat_map].
+  - intros H _; inversion H; reflexivity.
+  - unfold stream_frames. rewrite Hc.
+    destruct (quads_stream_frames d s) as [s1 evs1] eqn:E.
+    assert (Hc1 : st_class s1 = QuadStream) by (rewrite (quads_stream_frames_class _ _ _ _ E); exact Hc).
+    destruct (raised evs1) eqn:Er.
+    + intros H Hr; inversion H; subst. congruence.
+    + destruct (grouped_frames rest s1) as [s2 evs2] eqn:E2. intros H Hr; inversion H; subst.
+      destruct (grouped_quads_one_frame _ _ _ _ Hk E Er) as (H1 & _ & Hk1).
+      rewrite raised_app, Er in Hr.
+      rewrite emitted_app, H1, (IH _ _ _ Hc1 Hk1 E2 Hr). reflexivity.
+Qed.
